@@ -59,9 +59,19 @@ class IntVal(val.ExtensionValue):
     v: int
     width: int = field(default=5)
 
+    def _unsigned(self) -> int:
+        """The value as stored: an unsigned integer of the width (a negative
+        value is stored as its two's complement).
+        """
+        n = 1 << self.width
+        if not -(1 << (n - 1)) <= self.v < (1 << n):
+            msg = f"{self.v} is not an integer of width 2^{self.width}."
+            raise ValueError(msg)
+        return self.v % (1 << n)
+
     def to_value(self) -> val.Extension:
         name = "ConstInt"
-        payload = {"log_width": self.width, "value": self.v}
+        payload = {"log_width": self.width, "value": self._unsigned()}
         return val.Extension(
             name,
             typ=int_t(self.width),
@@ -74,7 +84,8 @@ class IntVal(val.ExtensionValue):
 
     def to_model(self) -> model.Term:
         return model.Apply(
-            "arithmetic.int.const", [model.Literal(self.width), model.Literal(self.v)]
+            "arithmetic.int.const",
+            [model.Literal(self.width), model.Literal(self._unsigned())],
         )
 
 
